@@ -72,8 +72,8 @@ fn rename(req: &Value) -> Value {
 }
 
 fn hover(req: &Value) -> Value {
-    // single-file workspace; hover at every requested offset
-    let (host, file) = AnalysisHost::new_single_file(req["text"].as_str().unwrap());
+    // single file or workspace; hover at every requested offset
+    let (host, file) = host_for(req);
     let a = host.snapshot();
     let mut out = Vec::new();
     for o in req["offsets"].as_array().unwrap() {
@@ -119,7 +119,8 @@ fn complete(req: &Value) -> Value {
     let mut out = Vec::new();
     for o in req["offsets"].as_array().unwrap() {
         let fpos = FilePos::new(file, (o.as_u64().unwrap() as u32).into());
-        match a.completions(fpos, None) {
+        let trig = req["trigger"].as_str().and_then(|t| t.chars().next());
+        match a.completions(fpos, trig) {
             Ok(Some(items)) => out.push(Value::Array(
                 items
                     .iter()
